@@ -7,12 +7,13 @@ import numpy as np
 
 import common
 import oracles
+import replay_run
 import ticc_util as tu
 from common import show_list, frac_str
 
 LEVEL = "proof"
-LEAN_PROPS = ["FastTicc.Props.C17", "FastTicc.Props.C17b", "FastTicc.Props.C12"]
-LEAN_HELPERS = ["FastTicc.Proofs.Stats", "FastTicc.Proofs.StatsPartition"]
+LEAN_PROPS = ["FastTicc.Props.C17", "FastTicc.Props.C17b", "FastTicc.Props.C12", "FastTicc.Props.Final"]
+LEAN_HELPERS = ["FastTicc.Proofs.Stats", "FastTicc.Proofs.StatsPartition", "FastTicc.Proofs.Final"]
 RULE = ("(a) synthetic integer data with given labels through the real metric vs the rational model (pinned and spec "
         "value); (b) converged runs with K>=2 and every cluster non-empty: the reported value vs an independent "
         "computation from data and returned labels, and the same data translated by a per-sensor constant; "
@@ -206,3 +207,6 @@ def run(ctx):
         ctx.case(("cfg", repr(sorted(cfg.items()))), nontrivial=vals[2] > 1e-9 * max(1.0, vals[0]),
                  sample={"reported": float(res.calinski_harabasz_index), "definition": vals[0], "deviation": vals[2],
                          "shift": cfg.get("shift")} if len(ctx.samples) < 6 else None)
+
+    # whole-result replay (Final.report): the index of a traced real run vs the composed model's scalar-centred value
+    replay_run.whole_result_section(ctx, cfgs, ("ch",), 5 if ctx.quick() else 40)
